@@ -550,5 +550,56 @@ for adj in row_it: graph.get_successor_nodes_by_index(&v)
         graph.knows(source) && target.is_none() && cutoff.is_none() && !first_only && !with_paths ==> r.is_ok(),
 //@ end
 
+// A4: assumed contract on std: <[T]>::contains is membership under the element type's == (spec equality for the name type, A2)
+pub assume_specification<T: std::cmp::PartialEq> [ <[T]>::contains ] (s: &[T], x: &T) -> (r: bool)
+    ensures
+        T::obeys_eq_spec() && (forall|a: T, b: T| #[trigger] a.eq_spec(&b) == (a == b)) ==> r == s@.contains(*x);
+
+// some path of the list has x strictly inside (not first, not last)
+pub open spec fn has_interior<T>(paths: Seq<Vec<T>>, x: T) -> bool {
+    exists|p: int, i: int| 0 <= p < paths.len() && 0 < i < paths[p]@.len() - 1 && #[trigger] paths[p]@[i] == x
+}
+
+impl<T> ShortestPathInfo<T> {
+//@ extract fn src/algorithms/shortest_path/shortest_path_info.rs contains_path_through_node props=C08,C20 ty=ShortestPathInfo
+//@ rewrite
+-> bool
+//@ with
+-> (r: bool)
+//@ rewrite
+for path in &self.paths
+//@ with
+for path in pit: &self.paths
+//@ rewrite count=opt
+                continue;
+            }
+            if
+//@ with
+            } else if
+//@ spec
+    requires
+        T::obeys_eq_spec(),
+        forall|a: T, b: T| #[trigger] a.eq_spec(&b) == (a == b),
+    ensures
+        // [C08.interior.filter]
+        r == has_interior(self.paths@, node_name),
+//@ loop 1
+            invariant
+                T::obeys_eq_spec(),
+                forall|a: T, b: T| #[trigger] a.eq_spec(&b) == (a == b),
+                forall|p: int, i: int| 0 <= p < pit.index@ && 0 < i < self.paths@[p]@.len() - 1 ==> #[trigger] self.paths@[p]@[i] != node_name,
+//@ before if path.len() <= 2 {
+            proof {
+                // the interior of the path is the sub-range the code searches
+                assert(*path == self.paths@[pit.index@]);
+                if path@.len() > 2 {
+                    let inner = path@.subrange(1, path@.len() - 1);
+                    assert forall|i: int| 0 < i < path@.len() - 1 implies #[trigger] path@[i] == inner[i - 1] by {}
+                    assert forall|k: int| 0 <= k < inner.len() implies #[trigger] inner[k] == path@[k + 1] by {}
+                }
+            }
+//@ end
+}
+
 } // verus!
 fn main() {}
